@@ -14,7 +14,7 @@
                       bit at position i stores `one` at index size() - 1 - i"""
 from ..bounds import Engine, Ptr, Obj, Obligation, UNKNOWN, St, btype
 from ..lin import Lin, lin, ge, le, lt, gt, eq, entails, feasible, TooBig
-from ..facts import children, walk, strip_casts, strip_all_casts, CALL_KINDS
+from ..facts import AnalysisBroken, children, walk, strip_casts, strip_all_casts, CALL_KINDS
 
 CLS = 'celma::container::DynamicBitset'
 
@@ -504,7 +504,10 @@ def mutators(chk, prog, rule='R5'):
                           '[%s]' % tag, f.loc(), bad or '')
     chk.require(n_spec >= 12, 'only %d mutating members of DynamicBitset matched a specification' % n_spec)
     if undecided:
-        chk.notes.append('bit-level result undecided (loop not summarised): %s' % sorted(set(undecided))[:8])
+        # every specified member is decided on the reference tree: an operation whose result can no longer be
+        # resolved bit by bit is not a pass
+        raise AnalysisBroken('bit-level result of %s can not be resolved (a loop of the operation is not summarised): '
+                             'the operation is no longer decided' % sorted(set(undecided))[:6])
     chk.samples.append({'R5_members_specified': n_spec, 'R5_undecided': sorted(set(undecided))})
     return n_spec
 
